@@ -990,6 +990,8 @@ class list_t(object):
         
     def clear(self):
         self.get_model().clear()
+        # Object lists keep the user's objects alongside the model
+        self.backing_arr.clear()
 
     def __contains__(self, lhs):
         if get_expr_mode():
